@@ -153,8 +153,46 @@ def plan(tier, seed):
     # operands in columns of two and three letters (workbook values and overrides addressed by letters)
     phases.append({'name': 'wide-column-operands', 'cases': [{'ov': m} for m in range(1 << len(WIDE_CELLS))], 'runner': 'run_wide',
                    'chunk': 8})
+    # an operand that is blank in the workbook and gets its value from an override (a blank written into the code is lost)
+    phases.append({'name': 'blank-operand-overridden', 'cases': [{'a2': i, 'b2': j} for i in range(len(BLANK_OV)) for j in range(len(BLANK_OV))],
+                   'runner': 'run_blank_ov', 'chunk': 10})
     phases.append({'name': 'text-literals', 'cases': tl, 'runner': 'run_text_literals', 'chunk': 100})
     return phases
+
+
+BLANK_OV = [None, 8, 0, -2.5, 'q', True]        # None = left blank
+BLANK_FORMS = ['=A2+1', '=A1*A2', '=A2&"x"', '=A1-A2/2>0', '=-A2%', '=A2=B2', '=A2&B2', '=A2+B2*2', '=(A2)', '=A2']
+
+
+def run_blank_ov(cases, stats):
+    from mc import sweep as SW
+    cells = {'A1': 5}
+    addrs = []
+    for k, f in enumerate(BLANK_FORMS):
+        cells[f'D{k + 1}'] = f
+        addrs.append(f'D{k + 1}')
+    cls = SW.get_class([('S', cells)], stats=stats)
+    vio = []
+    for i, c in enumerate(cases):
+        a2, b2 = BLANK_OV[c['a2']], BLANK_OV[c['b2']]
+        ov = [(a, v) for a, v in (('A2', a2), ('B2', b2)) if v is not None]
+        outs = SW.run(cls, ov, addrs, stats)
+        env = R.Env({('S', 'A', 1): 5, ('S', 'A', 2): a2, ('S', 'B', 2): b2}, 'S')
+        for f, o in zip(BLANK_FORMS, outs):
+            try:
+                w = R.evaluate(R.parse(f), env)
+            except R.Unspecified:
+                stats['x:explored_not_judged'] += 1
+                continue
+            stats['validated'] += 1
+            stats['nontrivial'] += 1
+            pct = '%' in f
+            ok, _ = R.same_value(w, o, 1e-14 if pct else 0.0)
+            if not ok:
+                vio.append({'i': i, 'desc': {'lvl': 'BLANK', 'src': 'ov', 'form': f, 'features': sorted(env.events),
+                                             'outcome': o[0] if o[0] != 'VALUE' else 'VALUE_MISMATCH'},
+                            'expected': D.enc(_refenc(w)), 'observed': [f, D.enc(o[1]) if o[0] == 'VALUE' else list(o), ov]})
+    return vio
 
 
 WIDE_CELLS = {'A1': 100, 'Z1': 200, 'AA1': 3, 'AZ1': 5, 'BA1': 7, 'XFD1': 11}
